@@ -314,7 +314,7 @@ PROPS["C03"] = {
 PROPS["C06"] = {
     "level": "exploration",
     "technique": "schedule-independent lock-order oracle on generated histories (transaction monitor behind the fstxn hooks: ascending order, self-acquire, locks leaked past the reply, retry bound), plus generated and small-scope-enumerated concurrent programs under a watchdog with lock-wait evidence",
-    "level_text": "Order: sequential histories generated to vary inode-number geometry (delete/recreate cycles with restarts so that children are numbered below their parents, LOOKUP of '.'/'..' and of children on either side of the parent's number, cold caches after restart, RENAME with its four inode roles drawn from a pool of three directories and names incl. '.'/'..' and forged handles, listings) run under the monitor: every lock requested while others are held must be larger than all of them unless it was just allocated by the same transaction; requesting a lock already held panics in the hook (before the request would block) and is a violation; after every reply no transaction of the request may still hold a lock; an uncontended request may begin at most 8 transactions; a request that does not return within the watchdog with no other request running is a violation. Dynamic: the C03 programs (free-running, seeded yields, one client held at a lock/commit point) and a seed-dependent quarter (thorough: all) of the enumerated two-client cases run under a 10-20 s watchdog; a run that does not end is reported with the goroutine dump, the number of goroutines waiting in the lock table and the lock sets of unfinished transactions; the order rule and the leaked-lock rule apply there too.",
+    "level_text": "Order: sequential histories generated to vary inode-number geometry (delete/recreate cycles with restarts so that children are numbered below their parents, LOOKUP of '.'/'..' and of children on either side of the parent's number, cold caches after restart, RENAME with its four inode roles drawn from a pool of three directories and names incl. '.'/'..' and forged handles, listings) run under the monitor: every lock requested while others are held must be larger than all of them unless it was just allocated by the same transaction; requesting a lock already held panics in the hook (before the request would block) and is a violation; after every reply no transaction of the request may still hold a lock; an uncontended request may begin at most 8 transactions; a request that does not return within the watchdog with no other request running is a violation. Dynamic: the C03 programs (free-running, seeded yields, one client held at a lock/commit point) and a seed-dependent quarter (thorough: all) of the enumerated two-client cases run under a 10-20 s watchdog; a run that does not end is reported with the goroutine dump, the number of goroutines waiting in the lock table and the lock sets of unfinished transactions; the order rule and the leaked-lock rule apply there too. A directed action builds a 900-block file, cuts it, stops the server with the background shrinker interrupted, starts a new one and sends a WRITE, SETATTR or READ to that very file (which is still shrinking and must be finished by the request itself): the request must return, within a bounded number of transactions.",
     "level_note": "Liveness is checked through safety proxies (order, self-acquire, leaked locks, retry bound) and a watchdog; schedules of the dynamic part are sampled. Acquisitions from dir.Apply (READDIRPLUS) are exempt from the order rule: known finding KF1, printed by a probe that runs its listed input; READDIRPLUS is kept out of concurrent programs.",
     "rule": ("unit = one sequential history / concurrent program / enumerated case. Non-trivial: a transaction acquired a lock while holding another one that it had not just allocated (counted by the monitor); enumerated case: the pause point was reached. distinct = FNV hash of the history."),
     "assumptions": CONC_ASSUMPTIONS,
